@@ -72,6 +72,8 @@ structure Mon where
   serverErr : Bool := false        -- an `error` frame was delivered before closing began
   welcomeErr : Bool := false       -- a welcome with `error` was delivered before closing began
   verdictBad : Bool := false       -- closed(v) with v not justified by the history (C08)
+  cause : Verdict := .empty        -- what made the Boss leave S0/S1/S2: the verdict it must report
+  verdictWrong : Bool := false     -- closed(v) with v different from `cause`
   resourceBad : Bool := false      -- closed notified while a claim/open is outstanding or connected
   allocLeak : Bool := false        -- closed notified while the server still holds the claim made by `allocate`
   internal : Bool := false         -- an internal failure (NoTransition, assertion, fuel, …) happened
@@ -119,7 +121,7 @@ def enabled (s : Sys) (e : Event) : Bool :=
   | .message .theirs ph new good pake =>
     frames && v.opened && pake = .good &&
       (match ph with
-       | .pake => new && good
+       | .pake => new && good = v.matchKey
        | .version => new && good = v.matchKey && v.srvPake
        | .num | .dilate => good = v.matchKey && v.matchKey && v.srvVersion
        | .other => false)
@@ -200,6 +202,7 @@ def monObs (before : Ctl) (after : Ctl) (v : Env) (m : Mon) : Obs → Mon
     | .closed vd =>
       { m with closedCount := sat2 (m.closedCount + 1),
                verdictBad := (m.verdictBad || !verdictOK m after vd),
+               verdictWrong := (m.verdictWrong || decide (vd ≠ m.cause)),
                allocLeak := (m.allocLeak || (after.t = .S_stopped && v.allocOut)),
                resourceBad := (m.resourceBad ||
                  -- through the Terminator (not Boss.error): everything must have been given back
@@ -225,6 +228,18 @@ def sysStep (s : Sys) (e : Event) : Sys × Outcome :=
       goodPeerMsg := (m1.goodPeerMsg || (rBefore != .S2_verified_key && c'.r = .S2_verified_key)),
       badPeerMsg := (m1.badPeerMsg || (rBefore != .S3_scared && c'.r = .S3_scared)),
       internal := (m1.internal || (match oc with | .internal _ => true | _ => false)) }
+  -- the first thing that makes the Boss start closing fixes the verdict (later causes are ignored)
+  let wasOpen := s.ctl.b = .S0_empty || s.ctl.b = .S1_lonely || s.ctl.b = .S2_happy
+  let nowClosing := c'.b = .S3_closing || c'.b = .S4_closed
+  let m2 := if wasOpen && nowClosing then
+      { m2 with cause := match e with
+          | .welcome true => .welcomeError
+          | .serverError => .serverError
+          | .message .theirs _ _ _ _ => .wrongPassword
+          | .close => if s.ctl.b = .S2_happy then .happy else .lonely
+          | .failInitial => .connectionError
+          | _ => .internalError }
+    else m2
   let m3 := obs.foldl (monObs s.ctl c' v1) m2
   ({ ctl := c', env := v1, mon := m3 }, oc)
 
@@ -235,7 +250,7 @@ def allEvents : List Event :=
    .send, .close, .wsOpen, .wsClose, .failInitial, .svcStopped,
    .welcome false, .welcome true, .claimed, .released, .closedResp, .allocated, .nameplates, .serverError,
    .message .ours .pake true true .good, .message .ours .version true true .good, .message .ours .num true true .good,
-   .message .theirs .pake true true .good,
+   .message .theirs .pake true true .good, .message .theirs .pake true false .good,
    .message .theirs .version true true .good, .message .theirs .version true false .good,
    .message .theirs .num true true .good, .message .theirs .num false true .good,
    .message .theirs .dilate true true .good, .message .theirs .dilate false true .good]
@@ -247,7 +262,7 @@ def safeStep (s : Sys) (e : Event) : Bool :=
   let (s', oc) := sysStep s e
   (match oc with | .internal _ => false | _ => true) &&
   s'.mon.closedCount ≤ 1 && !s'.mon.afterClosed && !s'.mon.dup && !s'.mon.order &&
-  !s'.mon.verdictBad && !s'.mon.resourceBad
+  !s'.mon.verdictBad && !s'.mon.verdictWrong && !s'.mon.resourceBad
 
 /-- additionally, under an order-preserving server: versions precede every application message -/
 def safeStepFifo (s : Sys) (e : Event) : Bool :=
